@@ -3,7 +3,7 @@
 use crate::cfg::Cfg;
 use crate::gen::{gen_batch, gen_delete_smallest, gen_mass_delete, BatchParams, ValProfile};
 use crate::model::{kv_root, Kv};
-use crate::report::{hex8, Rep};
+use nvcore::report::{hex8, Rep};
 use crate::sut::{batch_writes, guard, msg_class, Access, Batch, Prepared, Sut};
 use nomt::{Overlay, SessionParams};
 use nvcore::keygen::{KeyPool, KeyProfile};
